@@ -101,7 +101,7 @@ def run(ck):
     ck.tag = ""
     from rules import C01
     C01.install_reevaluates(ck, rid="C02.R9")
-    with_dispatch_rule(ck, F)
+    with_dispatch_rule(ck, Facts("default"))
 
 
 # ---------------------------------------------------------------------- R1
